@@ -131,7 +131,8 @@ def witness_of(rej):
             pops.setdefault(x["id"], []).append((now, x["delivered"]))
         elif x["ev"] == "end" and x["ok"] and x is not e:
             cnt[now // cfg["w"]] = cnt.get(now // cfg["w"], 0) + 1
-    w = {"class": "outcome-not-permitted-by-spec", "mode": cfg.get("mode"), "event": e, "now": now, "invariant": rej.get("invariant"),
+    w = {"class": "outcome-not-permitted-by-spec", "mode": cfg.get("mode"), "reconfigured": any(x["ev"] == "reconf" for x in rej.get("script", [])),
+         "config": {k: cfg[k] for k in ("quota", "w", "qsize")}, "event": e, "now": now, "invariant": rej.get("invariant"),
          "concurrent": any(x["ev"] in ("conc", "race") for x in rej.get("script", []))}
     if e["ev"] == "end" and e["id"] in arr:
         t0, b = arr[e["id"]]
@@ -151,13 +152,44 @@ def witness_of(rej):
     return w
 
 
+def epochs_of(trace):
+    """A recording of the plugin may contain reconfigurations (same remedy name, new strategy / queue size).  Every
+    configuration epoch has a queue of its own, so the property is a statement about each epoch's requests on their own:
+    the recording is split into one trace per configuration, holding for every history the clock events and the calls
+    made under that configuration.  Returns [(config line, [(history index, projected history), ...]), ...]"""
+    cfg, hs = split_histories(trace)
+    groups = {}
+    for hi, h in enumerate(hs):
+        confs = {0: cfg}
+        for e in h:
+            if e["ev"] == "reconf":
+                confs[e["ep"]] = dict(cfg, quota=e["quota"], w=e["w"], qsize=e["qsize"])
+        for ep, c in confs.items():
+            ids = {e["id"] for e in h if e["ev"] == "begin" and e.get("ep", 0) == ep}
+            if len(confs) > 1 and not ids:
+                continue
+            ph = [e for e in h if e["ev"] in ("reset", "adv", "quiet") or (e["ev"] in ("begin", "end", "pop") and e["id"] in ids)]
+            groups.setdefault(json.dumps(c, sort_keys=True), []).append((hi, ph))
+    return [(json.loads(k), v) for k, v in groups.items()]
+
+
+def validate_p(ctx, trace, tag):
+    """TLC validation against DpqP of every configuration epoch of a recording -> (accepted histories, rejections)"""
+    acc, rejected = 0, []
+    for n, (c, items) in enumerate(epochs_of(trace)):
+        ev = [c] + [e for _, ph in items for e in ph]
+        a, rej, _ = validate_history_trace(ctx, SPEC, "DpqTrace", ev, tag="%s-e%d" % (tag, n), deque=True)
+        acc += a
+        for r in rej:
+            r["hi"] = next(hi for hi, ph in items if ph == r["hist"])
+            rejected.append(r)
+    return acc, rejected
+
+
 def judge(ctx, binary, scripts, traces, tag, seen):
-    def one(it):
-        i, ev = it
-        return validate_history_trace(ctx, SPEC, "DpqTrace", ev, tag="%s%d" % (tag, i), deque=True)
-    res = parallel(one, list(enumerate(traces)), n=6)
+    res = parallel(lambda it: validate_p(ctx, it[1], "%s%d" % (tag, it[0])), list(enumerate(traces)), n=6)
     ctx.log("%s: %d traces (%d events) validated against DpqP" % (tag, len(traces), sum(len(t) for t in traces)))
-    for (acc, rejected, rounds), ev, sc in zip(res, traces, scripts):
+    for (acc, rejected), ev, sc in zip(res, traces, scripts):
         cfg, hs = split_histories(ev)
         ctx.cov["traces_validated_against_impl"] += acc
         for h in hs:
@@ -170,14 +202,14 @@ def judge(ctx, binary, scripts, traces, tag, seen):
         for rej in rejected:
             if len(ctx.violations) >= 12:       # enough confirmed witnesses: do not spend the budget on more of the same
                 break
-            hi = hs.index(rej["hist"])
+            hi = rej["hi"]
             rej["script"] = sc["histories"][hi]
             w = witness_of(rej)
             script = [{"config": sc["config"], "histories": [sc["histories"][hi]]}]
             reproduced = False
             for attempt in range(20 if w["concurrent"] else 2):       # goroutine scheduling inside one instant is not under the driver's control
                 t2 = execute(ctx, binary, script, "%s-repro" % tag)[0]
-                a2, r2, _ = validate_history_trace(ctx, SPEC, "DpqTrace", t2, tag="%s-repro" % tag, deque=True)
+                a2, r2 = validate_p(ctx, t2, "%s-repro" % tag)
                 if r2:
                     reproduced = True
                     break
@@ -201,7 +233,7 @@ def judge(ctx, binary, scripts, traces, tag, seen):
             if not rej:
                 return None
         return rej[0]
-    sel = list(enumerate(traces))
+    sel = [(i, t) for i, t in enumerate(traces) if not any(e["ev"] == "reconf" for e in t)]   # DpqI models one queue
     if tag != "cx":                      # every other recording in the quick tier, every fourth of the random ones in the thorough tier
         sel = sel[::2] if not ctx.thorough or tag == "gen" else sel[::4]
     drifts = parallel(drift, sel, n=4)
@@ -276,6 +308,17 @@ def run(ctx):
                     evs = [x for e in evs for x in ([e, e] if e["ev"] == "tick" else [e])]
                 scripts.append({"config": conf(c, mode), "histories": [[{"ev": "reset", "now": 0}] + evs]})
                 names.append(it[0] + "/" + mode)
+    # reconfiguration at plugin level: the remedy is re-applied under the same name with the quota raised / lowered
+    def E(i, ttl):
+        return {"ev": "enq", "id": i, "prio": 0, "ttl": ttl}
+    TK = {"ev": "tick"}
+    scripts.append({"config": {"quota": 1, "w": 4, "qsize": 2, "mode": "plugin"}, "histories": [
+        [{"ev": "reset", "now": 0}, E("a", 4), E("b", 4), {"ev": "reconf", "quota": 3, "w": 4, "qsize": 2}, E("c", 2), E("d", 2), TK, TK, TK, TK, E("e", 2), TK],
+        [{"ev": "reset", "now": 0}, E("a", 4), {"ev": "reconf", "quota": 1, "w": 2, "qsize": 1}, E("b", 2), E("c", 2), E("d", 2), TK, TK, E("e", 2), E("f", 4), TK, TK]]})
+    names.append("reconfiguration/plugin")
+    scripts.append({"config": {"quota": 3, "w": 4, "qsize": 2, "mode": "plugin"}, "histories": [
+        [{"ev": "reset", "now": 1}, E("a", 4), {"ev": "reconf", "quota": 1, "w": 4, "qsize": 2}, E("b", 4), E("c", 4), E("d", 6), E("e", 2), TK, TK, TK, TK, TK, TK, TK]]})
+    names.append("reconfiguration-lowered/plugin")
     # (2) forced on the real code, judged by P
     traces = execute(ctx, binary, scripts, "cx")
     ctx.sample({"kind": "forced-counterexample-schedule", "model": names[0], "events": traces[0][:16]})
@@ -364,7 +407,7 @@ def replay(ctx, path):
     rc = 0
     for attempt in range(20):
         t = execute(ctx, binary, obj["replay"]["script"], "replay")[0]
-        acc, rej, _ = validate_history_trace(ctx, SPEC, "DpqTrace", t, tag="replay", deque=True)
+        acc, rej = validate_p(ctx, t, "replay")
         if rej:
             rc = 1
             break
